@@ -316,7 +316,7 @@ def b_solver_shapes(tier, seed):
     from pymbolic.mapper.evaluator import EvaluationMapper
     b = BoundedRun("affine-solver-shapes", rule="from a uniquely and integrally solvable square system (1..3 unknowns, 0..1 parameters, solution chosen first): (a) with 1-2 added equations that "
                    "are integer combinations of its rows, inserted at random positions: accepted and every equation holds; (b) with an added combination whose constant is off by a "
-                   "non-zero amount (inconsistent): must raise; (c) with one equation removed (fewer equations than unknowns): must raise",
+                   "non-zero amount, or whose parameter coefficient is off while the constants agree (inconsistent): must raise; (c) with one equation removed (fewer equations than unknowns): must raise",
                    bound="300 (quick) / 1200 base systems x 3 shapes", functions=["solve_affine_equations_for", "gaussian_elimination"])
     rnd = random.Random(seed + 17)
     names = ["u", "v", "w"]
@@ -341,11 +341,12 @@ def b_solver_shapes(tier, seed):
             a, cn, c0 = row
             return (p.flattened_sum([a[j] * us[j] for j in range(nu)]), p.flattened_sum([cn * n_, c0]))
 
-        def combo(offset=0):
+        def combo(offset=0, poffset=0):
             ks = [rnd.randint(-2, 2) for _ in range(nu)]
             if not any(ks):
                 ks[0] = 1
-            return ([sum(ks[i] * rows[i][0][j] for i in range(nu)) for j in range(nu)], sum(ks[i] * rows[i][1] for i in range(nu)), sum(ks[i] * rows[i][2] for i in range(nu)) + offset)
+            return ([sum(ks[i] * rows[i][0][j] for i in range(nu)) for j in range(nu)], sum(ks[i] * rows[i][1] for i in range(nu)) + poffset,
+                    sum(ks[i] * rows[i][2] for i in range(nu)) + offset)
         shapes = []
         extra = [combo() for _ in range(rnd.choice([1, 2]))]
         sys_a = rows + extra
@@ -354,6 +355,10 @@ def b_solver_shapes(tier, seed):
         sys_b = rows + [combo(rnd.choice([-2, -1, 1, 3]))]
         rnd.shuffle(sys_b)
         shapes.append(("inconsistent", sys_b, False))
+        # inconsistent only in the coefficient of the parameter (the constants agree): holds for one value of n at most
+        sys_p = rows + [combo(0, rnd.choice([-2, -1, 1, 3]))]
+        rnd.shuffle(sys_p)
+        shapes.append(("inconsistent-in-parameter", sys_p, False))
         if nu >= 2:
             k = rnd.randrange(nu)
             shapes.append(("underdetermined", rows[:k] + rows[k + 1:], False))
